@@ -16,6 +16,7 @@ CONSTANTS Loc,       \* Loc[a] : sequence of host addresses of agent a
           Steps, MaxTime,  \* clock increments offered to Advance, horizon
           NomBase, NomStep, \* nomination values issued are NomBase + 1, NomBase + 1 + NomStep, NomBase + 1 + 2*NomStep, ...
           Renom, MaxRenom, \* renomination enabled (controlling side issues valued nominations), budget
+          MaxClose,    \* 1: agents may be closed in model checking, 0: not
           MaxData,     \* budget of application-data operations (writes and injected data datagrams)
           Lite,        \* Lite[a] : a is an ICE-lite agent
           Miss,        \* near-miss generation: names of guards switched OFF in this configuration ({} = the faithful model)
@@ -133,6 +134,7 @@ Wiped(a) == /\ pairs' = [pairs EXCEPT ![a] = <<>>] /\ pend' = [pend EXCEPT ![a] 
             /\ locals' = [locals EXCEPT ![a] = <<>>] /\ remotes' = [remotes EXCEPT ![a] = <<>>]
             /\ lastRx' = [lastRx EXCEPT ![a] = Never] /\ conn' = [conn EXCEPT ![a] = "Failed"]
 Tick(a) ==
+  /\ conn[a] \notin {"New", "Closed"}     \* the ticker exists between Dial/Accept and Close
   /\ ticks[a] < MaxTicks /\ BagCardinality(net) < MaxFlight
   /\ ticks' = [ticks EXCEPT ![a] = @ + 1]
   /\ LET ps == pairs[a]
@@ -214,7 +216,7 @@ HandleReq(b, lc, m) ==
                        /\ (cur = 0 \/ (cur # k /\ (m.nom # 0 \/ (lastNom[b] = 0 /\ (~NeedPrio(b) \/ ps[cur].prio < p.prio \/ "prioless" \in Miss)))))
               defer == accept /\ st1 # "S"      \* the nomination value is remembered with the pair (pnv)
               ps0 == [ps EXCEPT ![k].st = st1]
-              ps1 == IF doSel THEN SelectPair(b, ps0, k) ELSE IF defer THEN [ps0 EXCEPT ![k].nos = TRUE, ![k].pnv = m.nom] ELSE ps0
+              ps1 == IF doSel THEN SelectPair(b, ps0, k) ELSE IF defer THEN [ps0 EXCEPT ![k].nos = TRUE, ![k].pnv = IF m.nom # 0 THEN m.nom ELSE @] ELSE ps0
               sel1 == IF doSel THEN p.id ELSE sel[b]
               trig == ~rejected /\ ~Lite[b] /\ (st1 # "S" \/ sel1 = 0)
           IN /\ lastNom' = [lastNom EXCEPT ![b] = IF accept /\ m.nom # 0 THEN m.nom ELSE @]
@@ -257,6 +259,7 @@ RespAuthOK(b, m) == m.key = <<Other(b), rgen[b]>>
 Nothing(b) == UNCHANGED <<role, remotes, pairs, nextId, pend, sel, nomPair, conn, nextTid, answered, selStart, lastNom>>
 Deliver(m) ==
   /\ BagIn(m, net) /\ <<m.src, m.dst>> \in Reach
+  /\ conn[OwnerOf(RevNat(m.dst))] # "New"     \* a candidate's receive loop starts reading when Dial/Accept has been called
   /\ LET lc == RevNat(m.dst)  b == OwnerOf(lc) IN
      /\ IF lc \notin Rng(locals[b]) THEN   \* socket gone (restart, failure): datagram vanishes
            net' = net (-) One(m) /\ out' = EmptyBag /\ Nothing(b) /\ UNCHANGED lastRx
@@ -296,12 +299,12 @@ Inject(m) == inj < MaxInject /\ inj' = inj + 1 /\ net' = net (+) One(m) /\ out' 
 
 \* ---------- Restart(a), then the application re-gathers and re-signals
 Restart(a) ==
-  /\ rst < MaxRestart /\ rst' = rst + 1
+  /\ rst < MaxRestart /\ rst' = rst + 1 /\ conn[a] # "Closed"
   /\ gen' = [gen EXCEPT ![a] = @ + 1] /\ rgen' = [rgen EXCEPT ![a] = 0]
   /\ locals' = [locals EXCEPT ![a] = <<>>] /\ remotes' = [remotes EXCEPT ![a] = <<>>]
   /\ pairs' = [pairs EXCEPT ![a] = <<>>] /\ pend' = [pend EXCEPT ![a] = {}]
   /\ sel' = [sel EXCEPT ![a] = 0] /\ nomPair' = [nomPair EXCEPT ![a] = 0]
-  /\ conn' = [conn EXCEPT ![a] = "Checking"] /\ out' = EmptyBag
+  /\ conn' = [conn EXCEPT ![a] = IF @ = "New" THEN "New" ELSE "Checking"] /\ out' = EmptyBag   \* a New agent stays New
   /\ lastRx' = [lastRx EXCEPT ![a] = Never] /\ selStart' = [selStart EXCEPT ![a] = now] /\ gath' = [gath EXCEPT ![a] = "new"]
   /\ lastNom' = [lastNom EXCEPT ![a] = 0]
   /\ UNCHANGED <<role, nextId, nextTid, net, ticks, loss, dup, inj, answered, now, chkStart, lastTick, nomGen, issued>>
@@ -312,16 +315,17 @@ AddAllLocals(ps, id, ls, li, rs, ri, ctl) ==
   ELSE IF ri > Len(rs) THEN AddAllLocals(ps, id, ls, li + 1, rs, 1, ctl)
   ELSE AddAllLocals(Append(ps, NewPair(id + 1, ls[li], rs[ri].addr, rs[ri].prio, ctl)), id + 1, ls, li, rs, ri + 1, ctl)
 Gather(a) ==
-  /\ gath[a] = "new" /\ gath' = [gath EXCEPT ![a] = "complete"] /\ locals' = [locals EXCEPT ![a] = Loc[a]]
+  /\ gath[a] = "new" /\ conn[a] # "Closed" /\ gath' = [gath EXCEPT ![a] = "complete"] /\ locals' = [locals EXCEPT ![a] = Loc[a]]
   /\ LET r == AddAllLocals(pairs[a], nextId[a], Loc[a], 1, remotes[a], 1, role[a] = "controlling") IN
        pairs' = [pairs EXCEPT ![a] = r.ps] /\ nextId' = [nextId EXCEPT ![a] = r.id]
   /\ out' = EmptyBag
   /\ UNCHANGED <<role, gen, rgen, remotes, pend, sel, nomPair, conn, nextTid, net, ticks, loss, dup, inj, rst, answered, now, lastRx, selStart, chkStart, lastTick, nomv>>
 SetRemoteCreds(a) ==
-  /\ rgen[a] # gen[Other(a)] /\ rgen' = [rgen EXCEPT ![a] = gen[Other(a)]] /\ out' = EmptyBag
+  /\ conn[a] # "Closed" /\ rgen[a] # gen[Other(a)] /\ rgen' = [rgen EXCEPT ![a] = gen[Other(a)]] /\ out' = EmptyBag
   /\ UNCHANGED <<role, gen, locals, remotes, pairs, nextId, pend, sel, nomPair, conn, nextTid, net, ticks, loss, dup, inj, rst, answered, now, lastRx, selStart, chkStart, lastTick, gath, nomv>>
 \* AddRemoteCandidate(c): Equal-dedup, peer-reflexive supersession, pairing
 AddRemote(a, c) ==
+  /\ conn[a] # "Closed"
   /\ LET rs == remotes[a]  k == RemIdx(rs, c.addr) IN
      IF k # 0 /\ rs[k].typ = c.typ THEN UNCHANGED <<remotes, pairs, nextId, conn>>
      ELSE IF k # 0 /\ rs[k].typ = "prflx" THEN   \* supersession keeps pairs (ids, states, priority override)
@@ -337,6 +341,24 @@ AddRemote(a, c) ==
   /\ out' = EmptyBag
   /\ UNCHANGED <<role, gen, rgen, locals, pend, sel, nomPair, nextTid, net, ticks, loss, dup, inj, rst, answered, now, lastRx, selStart, chkStart, lastTick, gath, nomv>>
 
+\* Dial / Accept: remote credentials, role, fresh selector, Checking; the ticker and the receive loops start
+Start(a) ==
+  /\ conn[a] = "New"
+  /\ role' = [role EXCEPT ![a] = InitRole[a]] /\ conn' = [conn EXCEPT ![a] = "Checking"]
+  /\ rgen' = [rgen EXCEPT ![a] = gen[Other(a)]]
+  /\ selStart' = [selStart EXCEPT ![a] = now] /\ lastNom' = [lastNom EXCEPT ![a] = 0] /\ nomPair' = [nomPair EXCEPT ![a] = 0]
+  /\ out' = EmptyBag
+  /\ UNCHANGED <<gen, locals, remotes, pairs, nextId, pend, sel, nextTid, net, ticks, loss, dup, inj, rst, answered, now, lastRx, chkStart,
+                 lastTick, gath, nomGen, issued>>
+\* Close: the loop's onClose releases everything and reports Closed; nothing happens afterwards
+Close(a) ==
+  /\ conn[a] # "Closed" /\ conn' = [conn EXCEPT ![a] = "Closed"]
+  /\ pairs' = [pairs EXCEPT ![a] = <<>>] /\ pend' = [pend EXCEPT ![a] = {}] /\ sel' = [sel EXCEPT ![a] = 0]
+  /\ locals' = [locals EXCEPT ![a] = <<>>] /\ remotes' = [remotes EXCEPT ![a] = <<>>] /\ lastRx' = [lastRx EXCEPT ![a] = Never]
+  /\ out' = EmptyBag
+  /\ nomPair' = [nomPair EXCEPT ![a] = 0] /\ lastNom' = [lastNom EXCEPT ![a] = 0]
+  /\ UNCHANGED <<role, gen, rgen, nextId, nextTid, net, ticks, loss, dup, inj, rst, answered, now, selStart, chkStart, lastTick, gath,
+                 nomGen, issued>>
 Advance(d) == now + d <= MaxTime /\ now' = now + d /\ out' = EmptyBag
               /\ UNCHANGED <<role, gen, rgen, locals, remotes, pairs, nextId, pend, sel, nomPair, conn, nextTid, net, ticks, loss, dup, inj, rst,
                              lastRx, selStart, chkStart, lastTick, gath, answered, nomv>>
@@ -366,7 +388,7 @@ WriteStun(a) == wr < MaxData /\ wr' = wr + 1 /\ CoreSame /\ UNCHANGED <<lastRx, 
 InjectData(d) == wr < MaxData /\ wr' = wr + 1 /\ CoreSame /\ UNCHANGED lastRx /\ rd' = NoReads /\ dnet' = dnet (+) One(d)
 \* a non-STUN datagram reaches the reader only from the address of a known remote candidate; it refreshes that candidate's liveness
 DeliverData(d) ==
-  /\ BagIn(d, dnet) /\ <<d.src, d.dst>> \in Reach /\ dnet' = dnet (-) One(d) /\ CoreSame /\ UNCHANGED wr
+  /\ BagIn(d, dnet) /\ <<d.src, d.dst>> \in Reach /\ conn[OwnerOf(RevNat(d.dst))] # "New" /\ dnet' = dnet (-) One(d) /\ CoreSame /\ UNCHANGED wr
   /\ LET lc == RevNat(d.dst)  b == OwnerOf(lc) IN
      IF lc \in Rng(locals[b]) /\ RemIdx(remotes[b], d.src) # 0
      THEN rd' = [NoReads EXCEPT ![b] = <<d.pid>>] /\ lastRx' = [lastRx EXCEPT ![b][d.src] = now]
@@ -380,7 +402,7 @@ DataNext ==
   \/ \E d \in BagToSet(dnet) : DeliverData(d) \/ DropData(d) \/ VanishData(d)
   \/ \E d \in ForgedData : InjectData(d)
 CoreNext ==
-  \/ \E a \in Agents : Tick(a) \/ Restart(a) \/ Gather(a) \/ SetRemoteCreds(a)
+  \/ \E a \in Agents : Tick(a) \/ Restart(a) \/ Gather(a) \/ SetRemoteCreds(a) \/ Start(a) \/ (MaxClose > 0 /\ Close(a))
   \/ \E d \in Steps : Advance(d)
   \/ \E a2 \in Agents : \E k2 \in 1..Len(pairs[a2]) : Renominate(a2, k2)
   \/ \E a3 \in Agents : \E k3 \in 1..Len(Signal[a3]) : AddRemote(a3, Signal[a3][k3])
@@ -426,6 +448,7 @@ SelWhileConnected == \A a \in Agents : conn[a] \in {"Connected", "Disconnected"}
 ReleasedOnFailed == [][\A a \in Agents : (conn'[a] = "Failed" /\ conn[a] # "Failed") =>
                         (sel'[a] = 0 /\ pairs'[a] = <<>> /\ locals'[a] = <<>> /\ remotes'[a] = <<>> /\ pend'[a] = {})]_vars
 Lifecycle == [][\A a \in Agents : conn'[a] # conn[a] =>
+                 \/ conn'[a] = "Closed" \/ <<conn[a], conn'[a]>> = <<"New", "Checking">>
                  \/ <<conn[a], conn'[a]>> \in {<<"Checking","Connected">>, <<"Checking","Failed">>, <<"Connected","Disconnected">>,
                                                <<"Disconnected","Connected">>, <<"Disconnected","Failed">>}
                  \/ (<<conn[a], conn'[a]>> = <<"Connected","Failed">> /\ D = 0)
